@@ -80,7 +80,7 @@ Check(e) ==
          /\ e.hasx => (/\ e.xok <=> CanExtract(E1, E2)                                    \* special soundness
                        /\ e.xok => (e.wx = e.w /\ IsExtract(E1, e.z, E2, e.z2, e.wx) /\ StmtOf(P, e.wx) = e.x))
          /\ e.sa = SimOf(P, e.x, SE, e.sz) /\ e.sok /\ AccP(P, e.x, e.sa, e.se, e.sz)     \* simulated transcripts verify
-    [] e.a = "vfy" -> e.ok <=> AccP(e.P, e.x, e.cm, e.e, e.z)
+    [] e.a = "vfy" -> ~e.panic /\ (e.ok <=> AccP(e.P, e.x, e.cm, e.e, e.z))
     [] e.a = "ext" ->
          LET E1 == RedBytes(e.e)  E2 == RedBytes(e.e2) IN
          /\ e.ok <=> (AccP(e.P, e.x, e.cm, e.e, e.z) /\ AccP(e.P, e.x, e.cm, e.e2, e.z2) /\ CanExtract(E1, E2))
